@@ -2,8 +2,9 @@
   Semantics of the Python fragments that `tools/gen_code.py` translates from /repo's SOURCE TEXT
   (`Cvss/Gen/Code*.lean`).  Import-free.  Conventions of the translation:
 
-  * a Python expression or statement list that may raise becomes a computation in `Option`
-    (`none` ⇔ some exception: KeyError, TypeError on `None` arithmetic, RuntimeError, AssertionError);
+  * a Python expression or statement list that may raise becomes a computation in `M = Except Exc`
+    (`Exc` = the exception class: the library's own classes, KeyError, TypeError on `None` arithmetic, ValueError on
+    unpacking, AssertionError, anything else);
   * `Decimal` values are exact rationals (justified by the robustness / exactness theorems of C19),
     `str` is `List Char`, a dict with string keys is an association list in insertion order;
   * an attribute that can hold `None` is an `Option`.
@@ -33,8 +34,56 @@ def quantize1 : Rounding → Rat → Rat
     else if d > 1 / 2 then ((f + 1 : Int) : Rat) / 10
     else if f % 2 = 0 then (f : Rat) / 10 else ((f + 1 : Int) : Rat) / 10
 
-/-- `d[k]` on a dict literal or table: `none` ⇔ KeyError -/
-abbrev getitem {β : Type} (k : Str) (d : List (Str × β)) : Option β := lookup k d
+/-- the exception classes the translated fragments can raise; message texts are not modelled -/
+inductive Exc
+  | malformed | mandatory | rhMalformed | rhMismatch          -- the library's own hierarchy (per version)
+  | keyError | typeError | valueError | indexError | assertionError | other
+  deriving DecidableEq, Repr, Inhabited
+
+/-- the model's view of an exception: its class inside the CVSSError hierarchy, or "foreign" -/
+def Exc.toErr : Exc → Err
+  | .malformed => .malformed
+  | .mandatory => .mandatory
+  | .rhMalformed => .rhMalformed
+  | .rhMismatch => .rhMismatch
+  | _ => .foreign
+
+/-- a Python computation that may raise -/
+abbrev M := Except Exc
+
+def raise {α : Type} (e : Exc) : M α := .error e
+
+/-- `d[k]` on a dict literal or table: KeyError when absent -/
+def getitem {β : Type} (k : Str) (d : List (Str × β)) : M β :=
+  match lookup k d with
+  | some v => .ok v
+  | none => .error .keyError
+
+/-- a value that must not be `None` where it is used (arithmetic, ordering, iteration): TypeError -/
+def req {α : Type} : Option α → M α
+  | some x => .ok x
+  | none => .error .typeError
+
+/-- `a, b = xs`: ValueError unless there are exactly two items -/
+def unpack2 {α : Type} : List α → M (α × α)
+  | [a, b] => .ok (a, b)
+  | _ => .error .valueError
+
+def unpack3 {α : Type} : List α → M (α × α × α)
+  | [a, b, c] => .ok (a, b, c)
+  | _ => .error .valueError
+
+/-- `assert c` -/
+def assert (c : Prop) [Decidable c] : M Unit := if c then .ok () else .error .assertionError
+
+/-- `try: x  except cls: h` -/
+def tryExcept {α : Type} (x : M α) (cls : Exc) (h : M α) : M α :=
+  match x with
+  | .error e => if e = cls then h else .error e
+  | .ok v => .ok v
+
+/-- `s.endswith(p)` -/
+def endsWith (p s : Str) : Bool := p.reverse.isPrefixOf s.reverse
 
 /-- `d.get(k, default)` -/
 abbrev getD {β : Type} (k : Str) (d : List (Str × β)) (dflt : β) : β := (lookup k d).getD dflt
@@ -47,9 +96,6 @@ abbrev contains {β : Type} (k : Str) (d : List (Str × β)) : Bool := hasKey k 
 
 /-- `d[k] = v` -/
 abbrev setitem {β : Type} (k : Str) (v : β) (d : List (Str × β)) : List (Str × β) := insert k v d
-
-/-- a value that must not be `None` where it is used (arithmetic, ordering): `none` ⇔ TypeError -/
-abbrev req {α : Type} (x : Option α) : Option α := x
 
 /-- `"{0}:{1}".format(a, b)`-style templates: literal text and `{n}` fields -/
 def fmtField (args : List Str) (digits : Str) : Str :=
@@ -69,6 +115,31 @@ def strOInt : Option Int → Str
   | none => c!"None"
   | some (Int.ofNat n) => natToStr n
   | some (Int.negSucc n) => '-' :: natToStr (n + 1)
+
+/-- `s.upper()` on the strings the library upper-cases (ASCII value names) -/
+abbrev upper (s : Str) : Str := Cvss.upper s
+
+/-- a JSON value as `as_json()` produces it -/
+inductive J
+  | null
+  | str (s : Str)
+  | num (x : Rat)
+  deriving DecidableEq, Repr
+
+/-- `a < b` on `str` (code point order) -/
+def strLt : Str → Str → Bool
+  | [], [] => false
+  | [], _ :: _ => true
+  | _ :: _, [] => false
+  | a :: as, b :: bs => if a.toNat < b.toNat then true else if b.toNat < a.toNat then false else strLt as bs
+
+def insertSorted {β : Type} (kv : Str × β) : List (Str × β) → List (Str × β)
+  | [] => [kv]
+  | x :: xs => if strLt kv.1 x.1 then kv :: x :: xs else x :: insertSorted kv xs
+
+/-- `OrderedDict(sorted(d.items()))` for distinct string keys (stable insertion sort by key) -/
+def sortedItems {β : Type} (d : List (Str × β)) : List (Str × β) :=
+  d.foldl (fun acc kv => insertSorted kv acc) []
 
 /-- `str(n)` of a small non-negative integer -/
 abbrev strNat (n : Nat) : Str := natToStr n
